@@ -209,7 +209,9 @@ def run(res, tier, seed):
                     got = select(fname, fo)
                     pos = (fo.tell(), p0)
                 elif container in ("path", "pathlike", "openfile", "gzip-path"):
-                    base = os.path.basename(fname) if fname != "somefile" else "somefile_%d" % k
+                    # half of the anonymous files are written to ONE path that is rewritten again and again: the selection
+                    # follows what the file holds now, not what was found under that path before
+                    base = os.path.basename(fname) if fname != "somefile" else ("incoming.l1b" if rng.random() < 0.5 else "somefile_%d" % k)
                     path = os.path.join(d, base)
                     with open(path, "wb") as f:
                         f.write(gzip.compress(data) if container == "gzip-path" else data)
